@@ -40,6 +40,9 @@ def run(c):
         {"kind": "ptrace", "args": ["exit", "3"], "timeout_ms": 3000, "bg": True},
         {"kind": "ns", "args": ["exit", "0"], "timeout_ms": 3000, "bg": True},
         {"kind": "container", "args": ["exit", "0"], "timeout_ms": 3000, "bg": True},
+        {"kind": "container", "args": ["tree", "2", "TOKEN"], "timeout_ms": 3000, "cb": "fail_late", "sync_after": True},
+        {"kind": "container", "args": ["tree", "2", "TOKEN", "setsid"], "timeout_ms": 3000, "cb": "fail_late", "sync_after": True, "files": True},
+        {"kind": "idmapfail", "args": [], "timeout_ms": 1000},
         {"kind": "open", "args": [], "timeout_ms": 1000},
         {"kind": "forkfail", "args": [], "timeout_ms": 1000},
         {"kind": "clonefail", "args": [], "timeout_ms": 1000},
@@ -71,6 +74,9 @@ def run(c):
             continue
         c.count(json.dumps(x["ops"]), nontrivial=any(k.endswith(":cancel") for k in kinds), klass="history")
         c.evaluations += len(x["ops"]) - 1
+        if o.get("left_after_run"):
+            c.finding_or_violation({"kind": "residue", "what": "children of the container init (zombies included) are left when a failed or cancelled run has returned",
+                                    "count": o["left_after_run"]}, {"history": x["ops"], "after": o.get("left_after_which"), "log": o["log"]}, klass="residue:init-children-after-run")
         diff = {k: (o["base"][k], o["after"][k]) for k in o["base"] if o["after"].get(k) != o["base"][k]}
         if diff or o["token_procs"]:
             # which kinds of operations the history contained
